@@ -9,6 +9,9 @@ import SameVerif.Model.Framer
 import SameVerif.Spec.Frame
 import SameVerif.Model.Assembler
 import SameVerif.Spec.OracleAsm
+import SameVerif.Model.Link
+import SameVerif.Spec.OracleSig
+import SameVerif.Model.Receiver
 import Driver.Util
 /-
   samemodel: the executable side of the correspondence check.
@@ -330,6 +333,69 @@ def runScenario (tEnd : Nat) (bursts : List ScBurst) : List (Nat × MsgResult) :
 def showScenarioOut (outs : List (Nat × MsgResult)) : String :=
   if outs.isEmpty then "-" else ",".intercalate (outs.map (fun (t, r) => s!"{t}:{(showRes r).replace " " "_"}"))
 
+-- ---------------------------------------------------------------- link + receiver on tapped streams
+/-- run the link model over an observation string (one char '0'..'7' per tick: bit + 2·open + 4·close)
+    and the equalizer bytes (one per byte tick, in order) -/
+def linkRun (c : LCfg) (obs : List Char) (bytes : List Byte) : String := Id.run do
+  let mut st : LState := {}
+  let mut rest := bytes
+  let mut outs : List String := []
+  let mut tick := 0
+  let mut nbytes := 0
+  let mut resyncs : List Nat := []
+  let mut starved := false
+  for ch in obs do
+    tick := tick + 1
+    let v := ch.toNat - 48
+    let o : Obs := ⟨v % 2 == 1, v / 2 % 2 == 1, v / 4 % 2 == 1⟩
+    let eb := rest.headD 0
+    let (st', ls, bt) := lstep c st o eb
+    st := st'
+    outs := showLink ls :: outs
+    match bt with
+    | some adj =>
+      if rest.isEmpty then starved := true
+      rest := rest.tail
+      nbytes := nbytes + 1
+      if adj then resyncs := tick :: resyncs
+    | none => pure ()
+  return s!"{rle outs.reverse} | bytes={nbytes} left={rest.length}{if starved then " STARVED" else ""} resyncs={natsOf resyncs.reverse}"
+
+def showEvent : Event → String
+  | .link t ls => s!"{t}:L:{showLink ls}"
+  | .transport t ts =>
+    s!"{t}:T:{match ts with
+      | .idle => "idle"
+      | .assembling => "assembling"
+      | .message r => "msg_" ++ (showRes r).replace " " "_"}"
+
+/-- tick stream: `<delta><letter>` with letters N,S,R or `B<hex>;` -/
+partial def parseTicks (cs : List Char) (acc : List (Nat × LinkSt)) : Option (List (Nat × LinkSt)) :=
+  match cs with
+  | [] => some acc.reverse
+  | _ =>
+    let ds := cs.takeWhile Char.isDigit
+    let rest := cs.dropWhile Char.isDigit
+    match (String.ofList ds).toNat?, rest with
+    | some d, 'N' :: r => parseTicks r ((d, .noCarrier) :: acc)
+    | some d, 'S' :: r => parseTicks r ((d, .searching) :: acc)
+    | some d, 'R' :: r => parseTicks r ((d, .reading) :: acc)
+    | some d, 'B' :: r =>
+      let hx := r.takeWhile (· != ';')
+      match unhex (String.ofList hx) with
+      | some b => parseTicks ((r.dropWhile (· != ';')).drop 1) ((d, .burst b) :: acc)
+      | none => none
+    | _, _ => none
+
+def rxRun (rate sym0 : Nat) (ticks : List (Nat × LinkSt)) : String :=
+  let (_, _, _, evs) := ticks.foldl (fun (acc : RState × Nat × Nat × List Event) (d, ls) =>
+    let (st, sample, sym, evs) := acc
+    let sample := sample + d
+    let sym := sym + 1
+    let (st', e) := rTick rate st sample sym ls
+    (st', sample, sym, e.reverse ++ evs)) (({} : RState), 0, sym0, [])
+  if evs.isEmpty then "-" else ",".intercalate (evs.reverse.map showEvent)
+
 def vote3hash (lo hi : Nat) : UInt64 := Id.run do
   let mut h := fnvInit
   for i in [lo:hi] do
@@ -388,6 +454,32 @@ def parseScOuts (ans : List String) : Option (List Spec.Out) :=
   match ans with
   | ["-"] => some []
   | [w] => (w.splitOn ",").mapM parseScOut
+  | _ => none
+
+/-- `sample:L:<N|S|R|B:hex>` or `sample:T:<idle|assembling|msg_...>` -/
+def parseSigEv (w : String) : Option Spec.SigEv :=
+  match w.splitOn ":" with
+  | t :: "L" :: rest =>
+    match t.toNat?, rest with
+    | some t, ["N"] => some (.link t 'N' [])
+    | some t, ["S"] => some (.link t 'S' [])
+    | some t, ["R"] => some (.link t 'R' [])
+    | some t, ["B", hx] => (unhex hx).map (fun b => .link t 'B' b)
+    | _, _ => none
+  | t :: "T" :: rest =>
+    match t.toNat? with
+    | some t =>
+      let body := ":".intercalate rest
+      if body.startsWith "msg_" then
+        (parseScOut s!"{t}:{body.drop 4}").map (fun o => .msg t o.msg)
+      else some (.other t)
+    | none => none
+  | _ => none
+
+def parseSigEvs (ans : List String) : Option (List Spec.SigEv) :=
+  match ans with
+  | ["-"] => some []
+  | [w] => (w.splitOn ",").mapM parseSigEv
   | _ => none
 
 def toSBurst (b : ScBurst) : Spec.SBurst := ⟨b.role, b.bytes, b.t, b.busy⟩
@@ -549,6 +641,30 @@ def handleSpec (name : String) (ins ans : List String) : String :=
       | "c08" => optVerdict (Spec.oracleC08 bs outs)
       | _ => "bad-op"
     | _, _, _ => "FAIL unparsable scenario or answer"
+  | "spec.sig", [which, arg, _label] =>
+    match which with
+    | "c01" =>
+      match unhex arg, parseScOuts ans with
+      | some h, some msgs => optVerdict (Spec.oracleSigC01 h msgs)
+      | _, _ => "FAIL unparsable"
+    | "c04" =>
+      match arg.toNat?, parseSigEvs ans with
+      | some rate, some evs => optVerdict (Spec.oracleSigC04 rate evs)
+      | _, _ => "FAIL unparsable"
+    | "c13life" =>
+      match parseSigEvs ans with
+      | some evs => optVerdict (Spec.oracleLifecycle evs)
+      | none => "FAIL unparsable"
+    | "c08" =>
+      match arg.splitOn ",", parseSigEvs ans with
+      | rate :: spans, some msgs =>
+        let sp := spans.mapM (fun w => match (w.splitOn "-").mapM String.toNat? with
+          | some [a, b] => some (a, b) | _ => none)
+        match rate.toNat?, sp with
+        | some rate, some sp => optVerdict (Spec.oracleSigC08 rate sp msgs)
+        | _, _ => "FAIL unparsable"
+      | _, _ => "FAIL unparsable"
+    | _ => "bad-op"
   | "spec.c07.stream", [pb, ib, bs] =>
     match pb.toNat?, ib.toNat?, unhex bs with
     | some pb, some ib, some bs =>
@@ -604,6 +720,14 @@ def handleOp (args : List String) : String :=
     match unhex seed, pos.toNat? with
     | some seed, some pos => s!"{(hdrnbhd seed pos).toNat}"
     | _, _ => "bad-op"
+  | ["link.run", me, pb, ib, obs, bytes] =>
+    match me.toNat?, pb.toNat?, ib.toNat?, unhex bytes with
+    | some me, some pb, some ib, some bytes => linkRun ⟨me, ⟨pb, ib⟩⟩ obs.toList bytes
+    | _, _, _, _ => "bad-op"
+  | ["rx.run", rate, sym0, ticks] =>
+    match rate.toNat?, sym0.toNat?, parseTicks ticks.toList [] with
+    | some rate, some sym0, some ticks => rxRun rate sym0 ticks
+    | _, _, _ => "bad-op"
   | "asm.scenario" :: tEnd :: bursts =>
     match tEnd.toNat?, bursts.mapM parseScBurst with
     | some tEnd, some bs => showScenarioOut (runScenario tEnd bs)
